@@ -16,13 +16,17 @@ import warnings
 import numpy as np
 from harness import common as C
 
-RULE = ('histories over the alphabet {read_x, read_y, read_r, read_t, crop, pad1, pad21, mask, mask_r, fill, spike_clip, '
-        'remove_piston, remove_tiptilt, remove_power, recenter, latcal2, latcal037, strip_latcal, filter}: exhaustive up to '
-        'length 3 on 6 configurations and 2 on the other 26 (quick) / 4 on 4 and 3 on the other 28, 5 over the coordinate-relevant sub-alphabet on 1 (thorough) by prefix-shared DFS on configurations '
-        '(shape in 8x8, 9x7, 12x9, 7x10; NaN pattern none / circular / ragged edge / interior dropouts; dx in 1, 0.37), plus '
-        'seeded random histories up to length 40; crop additionally on every shape of a list (wide, tall, square, odd/even, 1-wide) x all 16 combinations of touching-the-edge / all-invalid margin on the four sides x two margin-width assignments x caches empty/populated; every step of every history is one case; a case is non-trivial unless '
-        'the operation is a bare read on an object whose caches are already populated; distinct = distinct '
-        '(configuration, operation prefix)')
+RULE = ('histories over the alphabet {read_x, read_y, read_r, read_t, crop, pad1, pad21, padshape0, mask, mask_r, fill, spike_clip, '
+        'remove_piston, remove_tiptilt, remove_power, recenter, latcal2, latcal037, strip_latcal, filter, exact_xy, exact_x, pvr, slices, '
+        'copy, psd} by prefix-shared DFS: quick = length 3 over 21 of the operations on 2 configurations and length 2 over all 26 on 26 more; '
+        'thorough = length 4 on 1, length 3 on 14, length 2 on the other 34, length 5 over the 11 coordinate-relevant operations on 1; '
+        'configurations = shape in {8x8, 9x7, 12x9, 7x10, 7x7} x invalid pattern in {none, circular, ragged edge, interior dropouts, mixed '
+        'NaN/+inf/-inf} x dx in {1, 0.37}; dx = 0 (constructor without lateral calibration) with length-2 histories over the operations '
+        'that do not divide by dx; seeded random histories up to length 40 with value-level model comparison at every step; crop '
+        'additionally on every shape of a list (wide, tall, square, odd/even, 1-wide) x all 16 combinations of touching-the-edge / '
+        'all-invalid margin on the four sides x two margin-width assignments x caches empty/populated. Every step of every history is '
+        'one case; a case is non-trivial unless the operation is a bare read on an object whose caches are already populated; '
+        'distinct = distinct (configuration, operation prefix)')
 ASSUMPTIONS = [
     'np.meshgrid / slicing / in-place arithmetic semantics (trusted); np.hypot / np.arctan2 are the polar transform',
     'np.linalg.lstsq returns the normal-equation solution when the design matrix has independent columns; tilt / power '
@@ -32,13 +36,21 @@ ASSUMPTIONS = [
     'tolerances: coordinates and statistics 1e-9 relative; zero-mean / re-fit residuals 1e-9 of the data scale',
 ]
 
-SHAPES = [(8, 8), (9, 7), (12, 9), (7, 10)]
-PATTERNS = ['none', 'circular', 'ragged', 'dropouts']
+SHAPES = [(8, 8), (9, 7), (12, 9), (7, 10), (7, 7)]
+PATTERNS = ['none', 'circular', 'ragged', 'dropouts', 'infs']
 DXS = [1.0, 0.37]
 ALPHABET = ['read_x', 'read_y', 'read_r', 'read_t', 'crop', 'pad1', 'pad21', 'mask', 'mask_r', 'fill', 'spike_clip',
-            'remove_piston', 'remove_tiptilt', 'remove_power', 'recenter', 'latcal2', 'latcal037', 'strip_latcal', 'filter']
-COORD_ALPHABET = ['read_x', 'read_r', 'crop', 'pad1', 'mask_r', 'remove_tiptilt', 'recenter', 'latcal2', 'strip_latcal', 'filter']
-CHANGERS = {'mask', 'mask_r', 'fill', 'spike_clip', 'crop', 'pad1', 'pad21', 'filter'}
+            'remove_piston', 'remove_tiptilt', 'remove_power', 'recenter', 'latcal2', 'latcal037', 'strip_latcal', 'filter',
+            'exact_xy', 'exact_x', 'pvr', 'slices', 'copy', 'psd', 'padshape0']
+# depth-3 exhaustive sweeps leave out operations whose effect on the caches duplicates another one's
+DFS3_ALPHABET = [op for op in ALPHABET if op not in ('pad21', 'latcal037', 'slices', 'psd', 'read_y')]
+# dx = 0 (no lateral calibration, all coordinates 0): without the operations that divide by dx / need an ascending grid
+DX0_ALPHABET = [op for op in ALPHABET if op not in ('filter', 'mask_r', 'exact_xy', 'exact_x', 'pvr', 'psd', 'slices')]
+COORD_ALPHABET = ['read_x', 'read_r', 'crop', 'pad1', 'mask_r', 'remove_tiptilt', 'recenter', 'latcal2', 'strip_latcal', 'filter',
+                  'exact_xy']
+CHANGERS = {'mask', 'mask_r', 'fill', 'spike_clip', 'crop', 'pad1', 'pad21', 'padshape0', 'filter'}
+# operations that only read: the data must come back bit-identical, dx untouched
+READ_ONLY = {'read_x', 'read_y', 'read_r', 'read_t', 'exact_xy', 'exact_x', 'pvr', 'slices', 'copy', 'psd'}
 TOL = 1e-9
 
 
@@ -68,6 +80,13 @@ def make_data(shape, pattern, data_seed):
         k = max(2, (m * n) // 9)
         idx = rng.choice(m * n, size=k, replace=False)
         z.flat[idx] = np.nan
+    elif pattern == 'infs':
+        # invalid = non-finite: NaN, +inf and -inf samples mixed
+        k = max(3, (m * n) // 8)
+        idx = rng.choice(m * n, size=k, replace=False)
+        z.flat[idx[0::3]] = np.nan
+        z.flat[idx[1::3]] = np.inf
+        z.flat[idx[2::3]] = -np.inf
     return z
 
 
@@ -116,6 +135,10 @@ def apply_op(i, op):
         add = (s, s) if isinstance(s, int) else s
         i.pad(samples=s)
         return [('pad', 0.0, (sh[0] + add[0], sh[1] + add[1]), (0, 0))]
+    if op == 'padshape0':
+        sh = i.data.shape
+        i.pad(0.0, shape=(sh[0] + 3, sh[1] + 2))
+        return [('pad', 0.0, (sh[0] + 3, sh[1] + 2), (0, 0))]
     if op == 'mask':
         i.mask(_circle_mask(i.data.shape))
         return [('mask',) + z]
@@ -139,7 +162,78 @@ def apply_op(i, op):
     if op == 'filter':
         i.filter(0.25 / i.dx, 'lowpass')
         return [('filter',) + z]
+    rxy = [('read_x',) + z, ('read_y',) + z]
+    if op in ('exact_xy', 'exact_x'):
+        x, y = i.x, i.y
+        d = i.data
+        m, n = d.shape
+        if m < 2 or n < 2:
+            return rxy
+        fin = np.isfinite(d)
+        if op == 'exact_xy':
+            # a node whose 3x3 neighbourhood is valid (linear interpolation at a node multiplies the neighbours by 0)
+            ok = fin.copy()
+            for a in (-1, 0, 1):
+                for b in (-1, 0, 1):
+                    ok &= np.roll(np.roll(fin, a, 0), b, 1)
+            ok[0, :] = ok[-1, :] = False
+            ok[:, 0] = ok[:, -1] = False
+            nodes = np.argwhere(ok)
+            if len(nodes) == 0:
+                i.exact_xy(float(x[m // 2, n // 2]), float(y[m // 2, n // 2]))
+                return rxy
+            for (pq) in (nodes[0], nodes[len(nodes) // 2], nodes[-1]):
+                p_, q_ = int(pq[0]), int(pq[1])
+                v = float(np.asarray(i.exact_xy(float(x[p_, q_]), float(y[p_, q_]))).ravel()[0])
+                if not abs(v - d[p_, q_]) <= TOL * max(1.0, abs(d[p_, q_])):
+                    _OPF.append(f'exact_xy at the grid node (x, y) = ({x[p_, q_]!r}, {y[p_, q_]!r}) = sample [{p_},{q_}] returns {v!r}; '
+                                f'the data there is {d[p_, q_]!r}')
+                    break
+        else:
+            row = int(np.argmin(np.abs(y[:, 0])))       # the slice `exact_x` interpolates: the row nearest to y = 0
+            ok = fin[row].copy()
+            ok &= np.roll(fin[row], 1) & np.roll(fin[row], -1)
+            ok[0] = ok[-1] = False
+            cols = np.where(ok)[0]
+            if len(cols) == 0:
+                i.exact_x(float(x[row, n // 2]))
+                return rxy
+            for q_ in (int(cols[0]), int(cols[-1])):
+                v = float(np.asarray(i.exact_x(float(x[row, q_]))).ravel()[0])
+                if not abs(v - d[row, q_]) <= TOL * max(1.0, abs(d[row, q_])):
+                    _OPF.append(f'exact_x at the grid coordinate x = {x[row, q_]!r} (sample [{row},{q_}]) returns {v!r}; the data there is {d[row, q_]!r}')
+                    break
+        return rxy
+    if op == 'pvr':
+        # normalisation radius covering every sample (pvr of a map with no sample inside the unit disc, or with no valid
+        # sample at all, has nothing to evaluate and raises: not part of the property)
+        rmax = float(copy.deepcopy(i).r.max())
+        if np.isfinite(i.data).any() and rmax > 0:
+            i.pvr(normalization_radius=1.01 * rmax)
+        else:
+            i.r, i.t
+        return [('read_r',) + z, ('read_t',) + z]
+    if op == 'slices':
+        sl = i.slices()
+        sl.x, sl.y
+        return rxy
+    if op == 'copy':
+        j = i.copy()
+        keep = i.data.copy()
+        dx0 = float(i.dx)
+        j.data[0, 0] = 123.0
+        j.latcal(7.0)
+        j.x, j.r
+        if not np.array_equal(keep, i.data, equal_nan=True) or float(i.dx) != dx0:
+            _OPF.append('modifying a copy() of the interferogram changed the original')
+        return []
+    if op == 'psd':
+        i.psd()
+        return []
     raise ValueError(op)
+
+
+_OPF = []        # failures of predicates evaluated inside apply_op (cleared by the caller before each operation)
 
 
 # ------------------------------------------------------------------------------------------------
@@ -181,6 +275,8 @@ def _coord_failures_order(j, order):
         out.append(f'x is not spaced by dx={dx}: first step {x[0, 1] - x[0, 0]}')
     if shp[0] > 1 and not np.allclose(np.diff(y, axis=0), dx, rtol=0, atol=TOL * ext):
         out.append(f'y is not spaced by dx={dx}: first step {y[1, 0] - y[0, 0]}')
+    if np.ptp(x, axis=0).max() > TOL * ext or np.ptp(y, axis=1).max() > TOL * ext:
+        out.append('x varies along axis 0 or y varies along axis 1 (not a Cartesian grid)')
     if not np.allclose(r, np.hypot(x, y), rtol=0, atol=TOL * max(ext, float(np.abs(x).max()), float(np.abs(y).max()))):
         out.append(f'r is not hypot(x, y): max |r| = {r.max()}, max hypot = {np.hypot(x, y).max()}')
     tt = np.arctan2(y, x)
@@ -213,7 +309,7 @@ def stats_failures(i):
         warnings.simplefilter('ignore')
         alone = (float(util.pv(v)), float(util.rms(v)), float(util.Sa(v)), float(util.std(v)))
     for nm, a, b in zip(('pv', 'rms', 'Sa', 'std'), (pv, rms, sa, std), alone):
-        if abs(a - b) > 1e-12 * max(1.0, abs(b)):
+        if abs(a - b) > 1e-10 * max(1.0, abs(b)):
             out.append(f'{nm} depends on the invalid samples: {a} on the map, {b} on its valid samples alone')
     eps = 1e-12 * max(float(np.abs(v).max()), 1e-300)      # rounding of the mean of (nearly) constant data
     if not (sa <= std * (1 + 1e-12) + eps and std <= pv * (1 + 1e-12) + eps):
@@ -236,7 +332,7 @@ def _power_design_ok(data):
         return False
     A = np.stack([rho2, np.ones_like(rho2)]).T
     s = np.linalg.svd(A, compute_uv=False)
-    return s[-1] > 1e-6 * s[0]
+    return s[-1] > 1e-3 * s[0]
 
 
 def _tilt_design_ok(i):
@@ -246,7 +342,7 @@ def _tilt_design_ok(i):
         return False
     A = np.stack([j.x[fin], j.y[fin]]).T
     s = np.linalg.svd(A, compute_uv=False)
-    return s[-1] > 1e-6 * s[0] > 0
+    return s[-1] > 1e-3 * s[0] > 0
 
 
 def op_failures(before, op, i):
@@ -260,7 +356,12 @@ def op_failures(before, op, i):
             out.append(f'{op} changed the data shape {d0.shape} -> {d1.shape}')
         elif not np.array_equal(np.isnan(d0), np.isnan(d1)) or not np.array_equal(np.isfinite(d0), np.isfinite(d1)):
             out.append(f'{op} changed the set of invalid samples')
-    scale = float(np.nanmax(np.abs(d0))) if np.isfinite(d0).any() else 1.0
+    if op in READ_ONLY:
+        if d1.shape != d0.shape or not np.array_equal(d0, d1, equal_nan=True):
+            out.append(f'{op} only reads, but the data changed ({int(np.isnan(d0).sum())} -> {int(np.isnan(d1).sum())} NaN samples)')
+        if float(i.dx) != dx0:
+            out.append(f'{op} only reads, but dx changed {dx0} -> {float(i.dx)}')
+    scale = float(np.max(np.abs(_valid(d0)))) if np.isfinite(d0).any() else 1.0
     scale = max(scale, 1e-3)
     nv = int(np.isfinite(d1).sum())
     if op == 'remove_piston' and nv:
@@ -280,6 +381,16 @@ def op_failures(before, op, i):
         c = np.linalg.lstsq(np.stack([rho2, np.ones_like(rho2)]).T, d1[fin], rcond=None)[0]
         if abs(c[0]) * 2 > TOL * scale * 100:
             out.append(f're-fitting power after remove_power finds coefficient {c[0]}')
+    if op in ('pad1', 'pad21', 'padshape0') and d1.shape[0] >= d0.shape[0] and d1.shape[1] >= d0.shape[1]:
+        o0, o1 = d1.shape[0] // 2 - d0.shape[0] // 2, d1.shape[1] // 2 - d0.shape[1] // 2
+        blk = d1[o0:o0 + d0.shape[0], o1:o1 + d0.shape[1]]
+        if not np.array_equal(blk, d0, equal_nan=True):
+            out.append(f'pad {d0.shape} -> {d1.shape} did not keep the samples as a block with its centre sample on the new centre')
+        fillv = 0.0 if op == 'padshape0' else np.nan
+        ring = np.ones(d1.shape, bool)
+        ring[o0:o0 + d0.shape[0], o1:o1 + d0.shape[1]] = False
+        if not np.array_equal(d1[ring], np.full(int(ring.sum()), fillv), equal_nan=True):
+            out.append(f'pad did not fill the periphery with the requested value {fillv}')
     if op == 'crop':
         if not np.array_equal(np.sort(_valid(d0)), np.sort(_valid(d1))):
             out.append('crop lost or altered valid samples')
@@ -305,21 +416,28 @@ def real_summary(i):
     def ax(a, which):
         if a is None:
             return None
+        if getattr(a, 'ndim', 0) != 2:
+            return (-1, -1, float('nan'), 0.0)
         sp = 0.0
         if which == 'x' and a.shape[1] > 1:
             sp = float(a[0, 1] - a[0, 0])
         if which == 'y' and a.shape[0] > 1:
             sp = float(a[1, 0] - a[0, 0])
-        return (a.shape[0], a.shape[1], float(a[0, 0]), sp)
+        return (a.shape[0], a.shape[1], float(a[0, 0]) if a.size else float('nan'), sp)
     return {'shape': tuple(i.data.shape), 'dx': float(i.dx), 'latcaled': bool(i._latcaled),
             'x': ax(i._x, 'x'), 'y': ax(i._y, 'y'), 'r': i._r is not None, 't': i._t is not None}
 
 
-def hist_line(cfg, reqs):
+def hist_line(cfg, reqs, hand=False):
     m, n = cfg['shape']
-    toks = ['hist', str(m), str(n), C.f2w(cfg['dx']), '1' if cfg['dx'] != 0 else '0']
+    toks = ['hist' if hand else 'histg', str(m), str(n), C.f2w(cfg['dx']), '1' if cfg['dx'] != 0 else '0']
     for (name, arg, shp, off) in reqs:
-        toks += [name, C.f2w(arg), str(shp[0]), str(shp[1]), str(off[0]), str(off[1])]
+        if hand:
+            toks += [name]
+        else:
+            et = GEN_TOKENS[name]
+            toks += [str(len(et))] + et
+        toks += [C.f2w(arg), str(shp[0]), str(shp[1]), str(off[0]), str(off[1])]
     return ' '.join(toks)
 
 
@@ -394,8 +512,9 @@ class Runner:
         try:
             with warnings.catch_warnings():
                 warnings.simplefilter('ignore')
+                _OPF.clear()
                 reqs = apply_op(i, op)
-                fails = step_failures(before, op, i)
+                fails = list(_OPF) + step_failures(before, op, i)
         except Exception as ex:
             ctx.pred_fail('history', case, f'{op} raised {type(ex).__name__}: {ex}')
             ctx.disagree('history', case, f'raised {type(ex).__name__}', 'model returns a state')
@@ -435,8 +554,14 @@ class Runner:
             self.expect.append(('crop', case, (_bbox(d0), d1.shape)))
 
     def queue_state(self, cfg, prefix_ops, reqs_so_far, i):
+        if not reqs_so_far:
+            return
+        summ = real_summary(i)
         self.lines.append(hist_line(cfg, reqs_so_far))
-        self.expect.append(('state', dict(cfg, ops=list(prefix_ops)), real_summary(i)))
+        self.expect.append(('state', dict(cfg, ops=list(prefix_ops)), summ))
+        if HAND_ALSO[0]:
+            self.lines.append(hist_line(cfg, reqs_so_far, hand=True))
+            self.expect.append(('state', dict(cfg, ops=list(prefix_ops), table='hand'), summ))
 
     def flush(self):
         ctx = self.ctx
@@ -467,9 +592,11 @@ class Runner:
                 t = line.split()
                 vals = _parse_opt_floats(t[2:] if kind == 'data2' else t)
                 exp = payload.ravel()
-                sc = max(1.0, float(np.nanmax(np.abs(exp))) if np.isfinite(exp).any() else 1.0)
-                same_nan = np.array_equal(np.isnan(vals), np.isnan(exp))
-                if vals.shape != exp.shape or not same_nan or np.nanmax(np.abs(vals - exp)) > 1e-8 * sc:
+                sc = max(1.0, float(np.max(np.abs(exp[np.isfinite(exp)]))) if np.isfinite(exp).any() else 1.0)
+                # the model has one kind of invalid sample; NaN / +inf / -inf of the implementation all map to it
+                same_inv = vals.shape == exp.shape and np.array_equal(np.isfinite(vals), np.isfinite(exp))
+                fin = np.isfinite(exp)
+                if not same_inv or (fin.any() and np.max(np.abs(vals[fin] - exp[fin])) > 1e-8 * sc):
                     ctx.disagree(kind, case, exp[:6].tolist(), vals[:6].tolist())
             elif kind == 'crop':
                 bb, shp = payload
@@ -483,17 +610,17 @@ class Runner:
         self.lines, self.expect = [], []
 
 
-def _dfs(run, cfg, i, prefix, reqs, alphabet, depth):
+def _dfs(run, cfg, i, prefix, reqs, alphabet, depth, values=False):
     if depth == 0:
         return
     for op in alphabet:
         j = copy.deepcopy(i)
-        r = run.do_step(cfg, prefix, j, op)
+        r = run.do_step(cfg, prefix, j, op, values=values and len(prefix) < 2)
         if r is None:
             continue
         reqs2 = reqs + r
         run.queue_state(cfg, prefix + [op], reqs2, j)
-        _dfs(run, cfg, j, prefix + [op], reqs2, alphabet, depth - 1)
+        _dfs(run, cfg, j, prefix + [op], reqs2, alphabet, depth - 1, values)
 
 
 def all_configs():
@@ -595,25 +722,38 @@ def _norm_effs(txt):
     return [t.lstrip('.') for t in txt.split()]
 
 
+GEN_TOKENS = {}      # model method name -> effect tokens the driver executes (translated from the source when available)
+HAND_ALSO = [False]  # also run the hand-written table (only when it differs from the translated one)
+
+
 def translation_validation(ctx):
-    """the effect list the translator reads off the current source == the hand-written list the driver executes?
-    A difference is not a failure by itself (both sides are checked separately: the generated list by the kernel, the
-    hand list against the real object) but it is recorded and widens the history sweep."""
+    """the effect list the translator reads off the current source vs the hand-written list of the model.
+    The driver EXECUTES the translated lists (`histg`); when they differ from the hand table the hand table is executed
+    as well, the difference is recorded and the history sweep is widened.  A method the translator cannot read (or reads as
+    several paths) is executed from the hand table."""
     import re, sys, os, importlib
     sys.path.insert(0, os.path.join(C.VERIF, 'tools'))
     gen = importlib.import_module('gen_c12')
     text, items = gen.generate(C.REPO)
     got = {m.group(1): m.group(2) for m in re.finditer(r'^def eff_(\w+) : List Eff := (\[.*\])$', text, re.M)}
     rep = C.lean_driver('C12', [f'effs {m}' for m in HAND_METHODS])
+    bad = {it['name'] for it in items if it.get('status') != 'ok'}
     diffs = []
+    GEN_TOKENS.clear()
+    GEN_TOKENS['crop_noop'] = []
     for m, hand in zip(HAND_METHODS, rep):
         ctx.case('effect_table', {'method': m}, nontrivial=True)
-        if m not in got:
-            diffs.append(f'{m}: not translated')
-        elif _norm_effs(got[m]) != _norm_effs(hand):
-            diffs.append(f'{m}: source {" ".join(_norm_effs(got[m]))} | model {" ".join(_norm_effs(hand))}')
+        ht = _norm_effs(hand)
+        if m not in got or m in bad:
+            diffs.append(f'{m}: not translated as a single path (hand table executed)')
+            GEN_TOKENS[m] = ht
+        else:
+            GEN_TOKENS[m] = _norm_effs(got[m])
+            if GEN_TOKENS[m] != ht:
+                diffs.append(f'{m}: source {" ".join(GEN_TOKENS[m])} | model {" ".join(ht)}')
     for d in diffs:
         ctx.notes.append('effect list differs from the hand model: ' + d)
+    HAND_ALSO[0] = bool(diffs)
     return diffs
 
 
@@ -642,17 +782,35 @@ def correspondence(ctx):
         want = 'none' if not any(c['margins']) else f'{l} {m - r} {t} {n - b}'
         if line != want:
             ctx.disagree('crop_box', c, want, line, note='model crop window vs bounding box of the generated valid region')
+    # no lateral calibration (dx = 0: every coordinate is 0): constructor state and short histories without the operations
+    # that divide by dx or need an ascending grid
+    dx0_ops = DX0_ALPHABET
+    for shape in ((8, 8), (7, 10)):
+        cfg = {'shape': list(shape), 'pattern': 'circular', 'dx': 0.0, 'data_seed': 77}
+        i0 = make_obj(cfg)
+        ctx.case('constructor', cfg, nontrivial=True)
+        if i0._latcaled is not False or any(getattr(i0, a) is not None for a in ('_x', '_y', '_r', '_t')):
+            ctx.disagree('constructor', cfg, f'_latcaled={i0._latcaled}', 'dx = 0 means no lateral calibration; all caches empty')
+        _dfs(run, cfg, i0, [], [], dx0_ops, 2)
+    for cfg in cfgs[:2]:
+        i0 = make_obj(cfg)
+        ctx.case('constructor', cfg, nontrivial=True)
+        if i0._latcaled is not True or any(getattr(i0, a) is not None for a in ('_x', '_y', '_r', '_t')):
+            ctx.disagree('constructor', cfg, f'_latcaled={i0._latcaled}', 'dx != 0: laterally calibrated; all caches empty')
     # exhaustive, prefix-shared
-    ndeep = ctx.scale(6 + 2 * widen, 4)
+    ndeep = ctx.scale(2 + widen, 1)
     deep = [cfgs[k] for k in order[:ndeep]]
     mid = [cfgs[k] for k in order[ndeep:]]
     for cfg in deep:
         cfg = dict(cfg, data_seed=int(ctx.rng.integers(1, 10 ** 6)))
-        _dfs(run, cfg, make_obj(cfg), [], [], ALPHABET, ctx.scale(3, 4))
+        _dfs(run, cfg, make_obj(cfg), [], [], DFS3_ALPHABET, ctx.scale(3, 4))
         if len(run.lines) > 200000:
             run.flush()
-    for cfg in mid:
-        _dfs(run, cfg, make_obj(cfg), [], [], ALPHABET, ctx.scale(2, 3))
+    if not ctx.thorough:
+        mid = mid[:26]
+    for k, cfg in enumerate(mid):
+        _dfs(run, cfg, make_obj(cfg), [], [], ALPHABET, ctx.scale(2, 3) if not (ctx.thorough and k >= 14) else 2,
+             values=(k < 6))
     run.flush()
     if ctx.thorough:
         for cfg in mid[:1]:
@@ -695,8 +853,9 @@ def run_history(cfg, ops, verbose=False):
         try:
             with warnings.catch_warnings():
                 warnings.simplefilter('ignore')
+                _OPF.clear()
                 apply_op(i, op)
-                f = step_failures(before, op, i)
+                f = list(_OPF) + step_failures(before, op, i)
         except Exception as ex:
             f = [f'{op} raised {type(ex).__name__}: {ex}']
             fails += [f'step {k} ({op}): {x}' for x in f]
@@ -729,7 +888,7 @@ def search(ctx, hints):
     cands.sort(key=lambda c: len(c['ops']))
     for c in cands[:150]:
         cfg = {k: c[k] for k in ('shape', 'pattern', 'dx', 'data_seed')}
-        for ext in [[]] + [[op] for op in ALPHABET]:
+        for ext in [[]] + [[op] for op in (ALPHABET if cfg['dx'] != 0 else DX0_ALPHABET)]:
             ops = list(c['ops']) + ext
             if len(ops) > 8:
                 continue
@@ -787,10 +946,17 @@ MANIFEST_ENTRY = {
              'crop in the current source (translated, NumPy bound normalisation included) keeps exactly rows [left, rows-right) x columns '
              '[top, cols-bottom) for every shape. The real object is compared with the state machine '
              'and the value model after every step of exhaustive short and random long histories, and the property predicates '
-             'are evaluated on the real arrays themselves.'),
+             'are evaluated on the real arrays themselves. TRANSLATED and proved equal to the model: the five statistics of prysm.util as '
+             'list expressions (`gen_util_stats`; the identities are stated over them in `util_stats_identities`), their validity filter '
+             '(isfinite), which fitted columns tilt / power removal subtract, every path of the constructors (accepted by the analyser from '
+             'NO knowledge of the caches: `constructed_coherent`). The translator follows aliases (locals bound to self.data / a cache / a '
+             'view, out=, in-place methods, helpers that write into their argument). The Lean driver executes the effect lists translated '
+             'from the current source (sent over the wire), the hand table only in addition when they differ. Operations exercised on the '
+             'real object include exact_xy / exact_x (interpolated value at a grid node = the data there), pvr, slices, copy, psd (read-only: '
+             'data bit-identical), pad(value, shape=) with a block-placement predicate, maps with +-inf, dx = 0.'),
     'note': ('partial: the effect lists abstract array contents to affine grids (shape, origin, spacing) — that the NumPy '
              'statements have those effects is translated syntactically and validated by the history correspondence, not proved; '
-             '`filter` values, pvr and plotting are not modelled; np.linalg.lstsq is trusted to return the normal-equation '
+             '`filter` values, pvr values and plotting are not modelled; make_xy_grid / cart_to_polar / lstsq bodies are compared, not translated; validity preservation is proved for finite subtracted terms only; np.linalg.lstsq is trusted to return the normal-equation '
              'solution (idempotence is not claimed for rank-deficient designs such as a single valid sample); NaN propagation '
              'through FFT (filter after mask) is observed, not modelled. Trusted: Lean kernel + standard axioms, the ast->effect '
              'translator, NumPy semantics, float tolerances 1e-9.'),
